@@ -1,7 +1,7 @@
 # Sizing and claim for C08 (see props/__init__.py)
 SPEC = {
-        "quick": {"rc_cases": 120000, "rc_procs": 8, "enum": True},
-        "thorough": {"rc_cases": 1000000, "rc_procs": 8, "enum": True, "fuzz_secs": 90, "fuzz_workers": 6},
+        "quick": {"rc_cases": 45000, "rc_procs": 8, "enum": True},
+        "thorough": {"rc_cases": 400000, "rc_procs": 8, "enum": True, "fuzz_secs": 90, "fuzz_workers": 6},
         "claim": {
             "category": "exploration",
             "technique": "rapidcheck/libFuzzer generated (string, start, count, n, trim set, separator) cases + bounded-exhaustive positions against reference slicing with non-wrapping arithmetic; allocation registry budget; all separator overloads compared",
